@@ -20,9 +20,9 @@ T = ("thorough",)
 MS = ["GC_Mark:verif_mark_stub", "GC_Sweep:verif_sweep_stub"]
 OBLIGATIONS = (
     [G("hash", "OP_HASH", 5, Q, rc=[])]
-    + [G("set.home%d" % h, "OP_SET", 5, Q, ["HOME=%d" % h], rc=RC + MS) for h in range(5)]
-    + [G("mem.home%d" % h, "OP_MEM", 5, Q, ["HOME=%d" % h]) for h in range(5)]
-    + [G("rem.home%d" % h, "OP_REM", 5, Q, ["HOME=%d" % h, "NO_OWNERSHIP"]) for h in range(5)]
+    + [G("set.home%d" % h, "OP_SET", 5, Q if h in (0, 2, 4) else T, ["HOME=%d" % h], rc=RC + MS) for h in range(5)]
+    + [G("mem.home%d" % h, "OP_MEM", 5, Q if h in (0, 3) else T, ["HOME=%d" % h]) for h in range(5)]
+    + [G("rem.home%d" % h, "OP_REM", 5, Q if h in (1, 4) else T, ["HOME=%d" % h, "NO_OWNERSHIP"]) for h in range(5)]
     + [G("sweep.noown.nc3", "OP_SWEEP", 5, Q, ["NO_OWNERSHIP"], nc=3, timeout=1800),
        G("mark_item", "OP_MARK_ITEM", 5, Q, rc=RC + ["GC_Recurse:verif_recurse_stub"]),
        G("recurse", "OP_RECURSE", 5, Q, rc=RC + ["GC_Mark_Item:verif_item_stub"]),
